@@ -359,7 +359,7 @@ func hostileReplies() []struct {
 		reply [][]byte
 		end   string
 	}
-	return []hr{
+	base := []hr{
 		{"origin-garbage", [][]byte{[]byte("\x00\x01\x02garbage\r\n\r\n")}, "fin"},
 		{"origin-bad-status-line", [][]byte{[]byte("HTTP/1.1 abc OK\r\n\r\n")}, "fin"},
 		{"origin-status-999999", [][]byte{[]byte("HTTP/1.1 999999 X\r\nContent-Length: 0\r\n\r\n")}, "fin"},
@@ -376,6 +376,45 @@ func hostileReplies() []struct {
 		{"origin-204-with-body", [][]byte{[]byte("HTTP/1.1 204 No Content\r\nContent-Length: 5\r\n\r\nhello")}, "fin"},
 		{"origin-extra-after-body", [][]byte{[]byte("HTTP/1.1 200 OK\r\nContent-Length: 2\r\n\r\nokHTTP/1.1 200 OK\r\nContent-Length: 4\r\n\r\nevil")}, "fin"},
 	}
+	// reply heads that must not carry a body (1xx, 101, 204, 304, replies to HEAD) combined with header fields that
+	// announce one or select a special writer in the proxy; names starting with "headreq-" are requested with HEAD
+	hdrs := []struct{ n, h string }{
+		{"event-stream", "Content-Type: text/event-stream\r\n"},
+		{"chunked", "Transfer-Encoding: chunked\r\n"},
+		{"length", "Content-Length: 5\r\n"},
+		{"upgrade", "Connection: Upgrade\r\nUpgrade: vfproto\r\n"},
+		{"event-stream-chunked", "Content-Type: text/event-stream\r\nTransfer-Encoding: chunked\r\n"},
+		{"event-stream-upgrade", "Content-Type: text/event-stream\r\nConnection: Upgrade\r\nUpgrade: vfproto\r\n"},
+		{"trailer", "Transfer-Encoding: chunked\r\nTrailer: X-T\r\n"},
+	}
+	sts := []struct {
+		n    string
+		line string
+		head bool
+		then string // what follows a 1xx interim head
+	}{
+		{"101", "HTTP/1.1 101 Switching Protocols\r\n", false, ""},
+		{"100", "HTTP/1.1 100 Continue\r\n", false, "HTTP/1.1 200 OK\r\nContent-Length: 2\r\n\r\nok"},
+		{"103", "HTTP/1.1 103 Early Hints\r\n", false, "HTTP/1.1 200 OK\r\nContent-Length: 2\r\n\r\nok"},
+		{"199", "HTTP/1.1 199 Whatever\r\n", false, ""},
+		{"204", "HTTP/1.1 204 No Content\r\n", false, ""},
+		{"304", "HTTP/1.1 304 Not Modified\r\n", false, ""},
+		{"headreq-200", "HTTP/1.1 200 OK\r\n", true, ""},
+		{"headreq-404", "HTTP/1.1 404 Not Found\r\n", true, ""},
+	}
+	var out []hr
+	for _, st := range sts {
+		for _, h := range hdrs {
+			for _, tail := range []struct{ n, b string }{{"", ""}, {"-with-bytes", "5\r\nhello\r\n0\r\n\r\n"}} {
+				name := fmt.Sprintf("origin-head-%s-%s%s", st.n, h.n, tail.n)
+				if st.head {
+					name = "headreq-" + name
+				}
+				out = append(out, hr{name, [][]byte{[]byte(st.line + h.h + "\r\n" + tail.b + st.then)}, "fin"})
+			}
+		}
+	}
+	return append(base, out...)
 }
 
 // RunHostile runs the experiment.  only != "" restricts it to one stream name.
@@ -586,8 +625,12 @@ func RunHostile(self, tier string, seed uint64, only string) []HostileResult {
 				return "dial: " + err.Error(), "", 0
 			}
 			defer c.Close()
-			c.Write([]byte("GET http://" + origin.Addr + "/hostile/" + hr.name + " HTTP/1.1\r\nHost: " + origin.Addr + "\r\n\r\n"))
-			co := ReadResponse(c, false, 5*time.Second)
+			method, headOnly := "GET", false
+			if strings.HasPrefix(hr.name, "headreq-") {
+				method, headOnly = "HEAD", true
+			}
+			c.Write([]byte(method + " http://" + origin.Addr + "/hostile/" + hr.name + " HTTP/1.1\r\nHost: " + origin.Addr + "\r\n\r\n"))
+			co := ReadResponse(c, headOnly, 3*time.Second)
 			return truncate(co.Raw, 120), co.P.Verdict, co.P.Status
 		})
 	}
